@@ -1,5 +1,6 @@
 import Fzf.Lemmas.Pattern
 import Fzf.Spec.Query
+import Fzf.Lemmas.ParseRender
 /-
 C01 — filtering is exact: the lines shown are the lines satisfying the query.
 Property theorems only.
@@ -39,6 +40,35 @@ theorem C01_extended_is_and_of_or (cfg : Cfg) (pat : Pattern) (toks : List Tok) 
   rw [Bool.eq_iff_iff, hiff]
   simp [List.all_eq_true, List.any_eq_true, bne_iff_ne]
 
+/-- **The documented search syntax is read as documented.** For every well-formed query — any
+    number of space-separated groups, each any number of `|`-separated terms of any kind (fuzzy,
+    `'exact`, `'boundary'`, `^prefix`, `suffix$`, `^equal$`), negated or not, whose texts are
+    non-empty, tab-free, do not begin with `! ' ^`, do not end with `$ ' \` and are not `|`; spaces
+    inside a text written as `\ ` — in fuzzy and in `--exact` mode, under every case mode, with or
+    without `--literal`: `parseTerms` applied to the concrete syntax returns exactly the documented
+    terms (`Query.compile`: kind, polarity, smart-case decided per term on its own text, accent
+    normalisation unless the term itself carries an accent, the escaped spaces restored), group
+    by group, in order. `CfgOk`: lower-casing never produces a syntax character from a non-ASCII
+    rune (checked on Go's table in every run) and normalisation leaves the syntax characters
+    alone (`C02_normalize_ascii`). -/
+theorem C01_documented_syntax (cfg : Cfg) (hc : Query.CfgOk cfg) (fuzzy : Bool) (cm : CaseMode) (normalize : Bool)
+    (q : Query.Query) (hw : Query.wf q = true) :
+    parseTerms cfg fuzzy cm normalize (Query.render fuzzy q) = q.map (·.map (Query.compile cfg cm normalize)) :=
+  Query.parse_render cfg hc fuzzy cm normalize q hw
+
+/-- The hypothesis holds of every configuration whose normalisation is `normalizeRune` over any
+    table and whose lower-casing is ASCII-only or maps non-ASCII runes to non-syntax runes. -/
+theorem C01_cfgOk_of_tables (U : Unicode) (sch : Scheme) (tbl : List (Nat × Nat))
+    (hl : ∀ c, c > 127 → Query.isSyn (U.lower c) = false) :
+    Query.CfgOk ⟨U, sch, normalizeRune tbl⟩ := by
+  refine ⟨hl, ?_⟩
+  intro c hs
+  have : c < 128 := by
+    have := hs; simp [Query.isSyn] at this; omega
+  show normalizeRune tbl c = c
+  unfold normalizeRune
+  rw [if_pos (Or.inl (by omega))]
+
 /- The documented syntax, on concrete queries (kernel-evaluated; `U` = ASCII-only oracle). -/
 def asciiU : Unicode := ⟨fun c => if 65 ≤ c ∧ c ≤ 90 then c + 32 else c, fun c => c == 32 || (9 ≤ c && c ≤ 13), fun _ => 1⟩
 def cfgA : Cfg := ⟨asciiU, schemeDefault, id⟩
@@ -56,5 +86,15 @@ example : parseTerms cfgA true .smart false
     (Query.render true [[⟨.boundary, false, [97, 32, 98]⟩], [⟨.fuzzy, true, [99]⟩, ⟨.equal, false, [100]⟩]]) =
     [[⟨.boundary, false, [97, 32, 98], false, false⟩],
      [⟨.fuzzy, true, [99], false, false⟩, ⟨.equal, false, [100], false, false⟩]] := by decide
+
+-- the hypotheses of C01_documented_syntax are satisfiable: the ASCII-only oracle is `CfgOk`, and a query with
+-- an escaped space, a negated fuzzy term and an anchored term is well-formed
+example : Query.CfgOk cfgA := by
+  refine ⟨?_, fun _ _ => rfl⟩
+  intro c hc
+  have h1 : ¬ (65 ≤ c ∧ c ≤ 90) := by omega
+  simp [cfgA, asciiU, h1, Query.isSyn]
+  omega
+example : Query.wf [[⟨.boundary, false, [97, 32, 98]⟩], [⟨.fuzzy, true, [99]⟩, ⟨.equal, false, [100]⟩]] = true := by decide
 
 end Fzf.Props.C01
